@@ -64,6 +64,14 @@ def run(ctx):
     rows = ctx.correspond(impl, model, "c04_parse", cases, classify=classify,
                           nontrivial=lambda c, o: True, describe=describe,
                           compare=lambda i, m: i == strip_dropped(m))
+    comp = composed_sample(ctx, cases, limit=2500 if ctx.tier == "quick" else 40000)
+    ctx.correspond(impl, model, "c04_parse", comp, classify=classify, nontrivial=lambda c, o: True,
+                   describe=describe,
+                  compare=lambda i, m: i == strip_dropped(m))
+    ctx.cov["composed_with_lexer_model"] = {
+        "cases": len(comp),
+        "note": "these cases carry no items: the model runner lexes the source with Lex/Fun.v (lex_all / lex_limited) and "
+                "parses the result, so lexer model + parser model composed are tied to the code as well"}
     fam = ctx.cov["families"]["c04_parse"]
     fam["token_limit_hit"] = sum(1 for c, i, _ in rows if c.split(" ")[1] != "-" and "l@" in i)
     fam["recursion_limit_hit"] = sum(1 for c, i, _ in rows if c.split(" ")[1] == "-" and "l@" in i)
@@ -79,7 +87,7 @@ def run(ctx):
         "clauses with the unlimited run as reference, and the compiler's recursion_reached / tokens_reached.")
     ctx.cov["exhaustive"] = False
     ctx.assumptions += [
-        "interim tie: the token-limited item stream comes from the real lexer (lex_limited is C03's model); the model counts the items the parser pulls",
+        "most cases feed the parser model the (token-limited) items the real lexer yields; a sample runs lex_limited + parser model composed; the model counts the items the parser pulls",
         "usize wrap-around of the trackers is not modelled (unbounded N); decrement below zero is a Panic of the model and proved unreachable",
     ]
     return ctx.finish(props)
